@@ -120,6 +120,8 @@ class Gen:
                 pay = "é" + pay[1:]
             elif j < 0.29:
                 pay = ""
+            elif j < 0.33:
+                pay = r.choice([" ", "\t"]).join(pay[i:i + 4] for i in range(0, len(pay), 4))
             return f"{n};255;4;0;{sub};{pay}"
         if k < 0.96:   # near misses
             hs, z = text.int_spelling(r, z=n)
